@@ -1,19 +1,23 @@
 (* C12 correspondence: (a) the client's internal view equals the offered sets parsed from its own
-   wire hello; (b) the client's observed decision on a scripted server flight equals client_run. *)
-From UV Require Export Base.Common Model.Negotiate Model.NegotiateSess Corr.NegotiateObs.
+   wire hello; (b) the client's observed decision on a scripted server flight equals Complete.client_run10 fixed env_fixed v ks:
+   the negotiation core with the key selection of the tree under test (fixed = KeySharePrivateKeys.ExtraEcdhe exists,
+   ks = curves of the private keys ApplyPreset retained, read from the UConn before the handshake). *)
+From UV Require Export Base.Common Model.Negotiate Model.NegotiateSess Model.NegotiateKeys Corr.NegotiateObs.
+From UV Require Model.KeyShare Model.Complete.
 
 Inductive case :=
 | CSync (v : client_view) (w : wire_view)
-| CRun (v : client_view) (w : wire_view) (fl : flight) (o : observed)
+| CRun (fixed : bool) (v : client_view) (ks : KeyShare.kshape) (w : wire_view) (fl : flight) (o : observed)
 (* the hello offers a TLS <= 1.2 session (cached or injected with SetSessionState); sh_ems = the ServerHello carries
    extended_master_secret; resumed = ConnectionState.DidResume *)
-| CRunSess (v : client_view) (w : wire_view) (sess : option session12) (sh_ems : bool) (fl : flight) (o : observed) (resumed : bool).
+| CRunSess (fixed : bool) (v : client_view) (ks : KeyShare.kshape) (w : wire_view) (sess : option session12) (sh_ems : bool)
+           (fl : flight) (o : observed) (resumed : bool).
 
 Definition check (c : case) : bool :=
   match c with
   | CSync v w => synced v w
-  | CRun v w fl o => synced v w && matches (client_run v fl) o
-  | CRunSess v w sess ems fl o resumed =>
-      synced v w && matches (client_run_sess env_fixed v sess ems fl) o
+  | CRun fixed v ks w fl o => synced v w && matches (Complete.client_run10 fixed env_fixed v ks fl) o
+  | CRunSess fixed v ks w sess ems fl o resumed =>
+      synced v w && matches (client_run_sess10 fixed env_fixed v ks sess ems fl) o
       && implb (o_complete o) (Bool.eqb resumed (did_resume env_fixed v sess fl))
   end.
